@@ -332,6 +332,8 @@ class BackupNode(Entity):
         self._replications_applied = 0
         self._backup_reads = 0
         self._last_applied_seq = 0
+        # Highest primary sequence number received so far, per key
+        self._key_seq: dict[str, int] = {}
 
     def downstream_entities(self) -> list[Entity]:
         return [self._primary]
@@ -375,11 +377,17 @@ class BackupNode(Entity):
         seq = metadata.get("seq", 0)
         ack_future: SimFuture | None = metadata.get("ack_future")
 
-        # Apply locally
-        yield from self._store.put(key, value)
-
-        self._replications_applied += 1
-        self._last_applied_seq = seq
+        if seq < self._key_seq.get(key, 0):
+            # Stale: a newer write to this key overtook this one in flight.
+            # Keep the newer value; just wait out the store latency so that
+            # the newer write is in place before this one is acknowledged.
+            yield self._store.write_latency
+        else:
+            self._key_seq[key] = seq
+            # Apply locally
+            yield from self._store.put(key, value)
+            self._replications_applied += 1
+            self._last_applied_seq = seq
 
         # Resolve ack future if present (for SEMI_SYNC/SYNC)
         if ack_future is not None:
